@@ -1,6 +1,53 @@
-(** C15 — IR nodes obey structural laws (placeholder until ExprProofs lands in this round). *)
-From Coq Require Import ZArith List Bool.
-From Mx Require Import Expr.
-Theorem C15_eqb_int_width : forall sg w v sg' w' v', expr_eqb (EInt sg w v) (EInt sg' w' v') = true -> v = v' /\ w = w'.
-Proof. intros. simpl in H. apply andb_true_iff in H. destruct H. split; apply Z.eqb_eq; assumption. Qed.
-Print Assumptions C15_eqb_int_width.
+(** C15 — IR nodes obey structural laws.  Property theorems only, each closed by [exact] of a lemma of
+    Mx.ExprProofs about the model Mx.Expr (tied to expression.py by the exprlaws correspondence). *)
+From Coq Require Import ZArith List Bool String.
+From Mx Require Import Expr ExprProofs.
+Open Scope Z_scope.
+
+(** equality (the per-class __eq__ methods) is an equivalence on ALL trees *)
+Theorem C15_eq_refl : forall e, expr_eqb e e = true.
+Proof. exact eqb_refl. Qed.
+Print Assumptions C15_eq_refl.
+Theorem C15_eq_sym : forall x y, expr_eqb x y = expr_eqb y x.
+Proof. exact eqb_sym. Qed.
+Print Assumptions C15_eq_sym.
+Theorem C15_eq_trans : forall x y z, expr_eqb x y = true -> expr_eqb y z = true -> expr_eqb x z = true.
+Proof. exact eqb_trans. Qed.
+Print Assumptions C15_eq_trans.
+
+(** ... that implies equal hashes, for every host hash of strings / ints / None (i.e. every PYTHONHASHSEED) *)
+Theorem C15_eq_hash : forall (hs : string -> Z) (hi : Z -> Z) (hnone : Z) x y,
+  expr_eqb x y = true -> hash hs hi hnone x = hash hs hi hnone y.
+Proof. exact hash_eqb. Qed.
+Print Assumptions C15_eq_hash.
+
+(** ... and equal widths and values under every valuation, memory and interpretation of the named operators *)
+Theorem C15_eq_size : forall x y, expr_eqb x y = true -> size x = size y.
+Proof. exact size_eqb. Qed.
+Print Assumptions C15_eq_size.
+Theorem C15_eq_value : forall rho mu iota x y, expr_eqb x y = true -> eval rho mu iota x = eval rho mu iota y.
+Proof. exact eval_eqb. Qed.
+Print Assumptions C15_eq_value.
+
+(** a deep copy, and a visit with the identity callback, give back the same tree *)
+Theorem C15_copy_id : forall e, copy e = e.
+Proof. exact copy_id. Qed.
+Print Assumptions C15_copy_id.
+Theorem C15_visit_id : forall e, visit (fun x => x) e = e.
+Proof. exact visit_id. Qed.
+Print Assumptions C15_visit_id.
+
+(** visit(cb) preserves width and value whenever the callback does *)
+Theorem C15_visit_preserves : forall rho mu iota cb,
+  (forall x, size (cb x) = size x /\ eval rho mu iota (cb x) = eval rho mu iota x) ->
+  forall e, size (visit cb e) = size e /\ eval rho mu iota (visit cb e) = eval rho mu iota e.
+Proof. exact visit_preserves. Qed.
+Print Assumptions C15_visit_preserves.
+
+(** replace_expr denotes substitution: when every key and its image have the same width and value, the
+    result has the original's width and value (sub-term keys of any shape, any number of keys) *)
+Theorem C15_replace_congruence : forall rho mu iota d,
+  (forall k v, In (k, v) d -> size k = size v /\ eval rho mu iota k = eval rho mu iota v) ->
+  forall e, size (replace_expr d e) = size e /\ eval rho mu iota (replace_expr d e) = eval rho mu iota e.
+Proof. exact replace_congruence. Qed.
+Print Assumptions C15_replace_congruence.
